@@ -59,6 +59,7 @@ type bsim struct {
 	cancelAt     int
 	arrival      []string
 	against      map[string]string
+	pins         *remotePins
 	counters     map[string]int
 }
 
@@ -396,6 +397,7 @@ func Run(tp *tape.Tape, env *engine.Env) *engine.Outcome {
 	s.Event("case mode=%s modules=%d files=%d targets=%v", mode, len(m.ws.Modules), len(m.ws.Files), m.ws.Targets())
 
 	if m.prop == "C02" {
+		m.pins = m.newRemotePins()
 		m.against = m.ws.Mutate(tp)
 		// a tape-chosen rule selection: categories and single rule ids, with exceptions
 		pool := []string{"STANDARD", "COMMENTS", "UNARY_RPC", "PACKAGE_NO_IMPORT_CYCLE", "MINIMAL", "BASIC", "RPC_NO_CLIENT_STREAMING"}
